@@ -233,9 +233,12 @@ def audit(module: str, theorems: list[str]) -> dict:
 class Driver:
     """One native driver process; requests are written in batches and answers read back."""
 
-    def __init__(self):
-        if not DRIVER.exists():
-            raise Infra(f"driver not built: {DRIVER}")
+    def __init__(self, exe: str = "driver"):
+        self.path = LEAN / ".lake" / "build" / "bin" / exe
+        if not self.path.exists():
+            ok, log = lake_build([exe])
+            if not ok or not self.path.exists():
+                raise Infra(f"driver not built: {self.path}\n{log[-1500:]}")
         self.n = 0
 
     def ask(self, lines: list[str]) -> list[str]:
@@ -245,9 +248,12 @@ class Driver:
             if "\n" in l:
                 raise Infra("newline in request")
         data = "\n".join(lines) + "\n"
-        r = subprocess.run(
-            [str(DRIVER)], input=data, capture_output=True, text=True, timeout=3600
-        )
+        try:
+            r = subprocess.run(
+                [str(self.path)], input=data, capture_output=True, text=True, timeout=900
+            )
+        except subprocess.TimeoutExpired:
+            raise Infra("driver timed out (900 s)")
         if r.returncode != 0:
             raise Infra(f"driver exit {r.returncode}: {r.stderr[-500:]}")
         out = r.stdout.split("\n")
@@ -332,7 +338,10 @@ class Check:
     """Bookkeeping of one check run: counts, samples, violations, evidence."""
 
     def __init__(self, prop: str, tier: str, module: str, theorems: list[str], rule: str,
-                 assumptions: list[str] | None = None):
+                 assumptions: list[str] | None = None, exe: str = "driver",
+                 extra_modules: list[str] | None = None):
+        self.exe = exe
+        self.extra_modules = extra_modules or []
         self.prop = prop
         self.tier = tier
         self.module = module
@@ -369,7 +378,9 @@ class Check:
 
     # ---- proof side
     def prove(self):
-        ok, log = lake_build()
+        """build this property's Lean module (+ its driver), grep for proof escapes, audit axioms;
+        thorough tier: re-check the compiled module with leanchecker."""
+        ok, log = lake_build([self.module, self.exe, *self.extra_modules])
         self.build_ok = ok
         self.build_log = log
         toks = forbidden_tokens()
@@ -378,6 +389,14 @@ class Check:
             self.build_log += "\nforbidden tokens:\n" + "\n".join(toks)
         if ok:
             self.audit_result = audit(self.module, self.theorems)
+            if self.tier == "thorough" and self.audit_result["ok"]:
+                r = lake("env", "leanchecker", self.module, *self.extra_modules, timeout=3000)
+                self.audit_result["cmd"] += f" && lake env leanchecker {self.module}"
+                self.extra["leanchecker_exit"] = r.returncode
+                if r.returncode != 0:
+                    self.audit_result["ok"] = False
+                    self.audit_result["discharged"] = 0
+                    self.audit_result["log"] = (r.stdout + r.stderr)[-3000:]
         else:
             self.audit_result = {
                 "ok": False, "discharged": 0, "obligations": len(self.theorems),
